@@ -378,8 +378,18 @@ def c14g(ctx):
         return
     tab = ctx.rows(table(fn.node.body, ret_kind, event_of=lambda st: 'direct' if isinstance(st, (ast.Return, ast.Assign, ast.Expr)) and st.value is not None and
                          contains(st.value, lambda x: is_call(x, 'get_map')) else None))
-    clip = [a for a in tab.atoms if a.endswith('.coverage.clip')]
-    cov = [a for a in tab.atoms if a.endswith('.coverage') and tab.atom_objs[a].op is None]
+    # a local that merely names the source's coverage (`coverage = self.sources[0].coverage`) is read as what it names
+    import re as _re
+    fdefs = Defs(fn.node)
+    alias = {nm: unparse(ds[0][0]) for nm, ds in fdefs.defs.items()
+             if len(ds) == 1 and ds[0][1] is None and isinstance(ds[0][0], ast.Attribute) and ds[0][0].attr == 'coverage'}
+
+    def full(a):
+        for nm, t in alias.items():
+            a = _re.sub(r'(?<![\w.])%s(?!\w)' % _re.escape(nm), t, a)
+        return a
+    clip = [a for a in tab.atoms if full(a).endswith('.coverage.clip')]
+    cov = [a for a in tab.atoms if full(a).endswith('.coverage') and tab.atom_objs[a].op is None]
     inter = [a for a in tab.atoms if is_call(tab.atom_objs[a].expr, 'intersects') and 'coverage' in a and 'query.bbox' in a]
     weaker = [a for a in tab.atoms if is_call(tab.atom_objs[a].expr, 'contains') and 'coverage' in a]
     ok = len(clip) == 1 and len(cov) == 1 and len(inter) == 1 and not weaker
